@@ -1009,6 +1009,12 @@ func loopWritesOnlyFresh(fr *frame, body map[*ssa.BasicBlock]bool, k string, e *
 func (e *enc) allocSetKey(elem types.Type) string {
 	key := "AL:" + e.so.of(elem)
 	if _, ok := e.mem[key]; !ok {
+		if v, ok := e.init[key]; ok {
+			e.mem[key] = v
+			return key
+		}
+	}
+	if _, ok := e.mem[key]; !ok {
 		e.memSort[key] = "(Array Int Bool)"
 		e.mem[key] = e.fresh("al0_"+e.so.of(elem), "(Array Int Bool)")
 		e.init[key] = e.mem[key]
